@@ -38,6 +38,29 @@ class _H:
         return fill("unitary", (n, n), dtype, key=("c03arg", key))
 
 
+    @staticmethod
+    def mps(phys, bonds, key, dtype="complex128"):
+        import quimb.tensor as qtn
+
+        L = len(phys)
+        arrays = []
+        for i, d in enumerate(phys):
+            shp = ([] if i == 0 else [bonds[i - 1]]) + ([] if i == L - 1 else [bonds[i]]) + [d]
+            arrays.append(_H.arr(shp, (key, i), dtype))
+        return _det_names(qtn.MatrixProductState(arrays, shape="lrp"), "abnd")
+
+    @staticmethod
+    def mpo(phys, bonds, key, dtype="complex128", sites=None, L=None, **kw):
+        import quimb.tensor as qtn
+
+        n = len(phys)
+        arrays = []
+        for i, d in enumerate(phys):
+            shp = ([] if i == 0 else [bonds[i - 1]]) + ([] if i == n - 1 else [bonds[i]]) + [d, d]
+            arrays.append(_H.arr(shp, (key, i), dtype))
+        return _det_names(qtn.MatrixProductOperator(arrays, shape="lrud", sites=sites, L=L, **kw), "abnd")
+
+
 H = _H
 
 
@@ -54,6 +77,13 @@ def seed_everything():
 def _refill(tn, key, dtype=None, kind="generic"):
     """Overwrite all data of a structured network built by a quimb generator
     (used for its shapes only) with alphabet data."""
+    # generators name bonds with rand_uuid: give them deterministic names
+    ren = {}
+    for t in tn.tensor_map.values():
+        for ix in t.inds:
+            if ix not in ren and len(tn.ind_map[ix]) > 1:
+                ren[ix] = "bnd%d" % len(ren)
+    tn.reindex_(ren)
     for i, t in enumerate(tn.tensor_map.values()):
         dt = dtype or str(t.dtype)
         t.modify(data=fill(kind, t.shape, dt, key=("c03recv", key, i)))
@@ -75,8 +105,29 @@ def receiver(name):
     return deco
 
 
+def _det_names(tn, prefix="bnd"):
+    """quimb constructors name bonds with rand_uuid(): rename those to
+    deterministic names (order of first appearance over tids / axes) so that
+    two builds of a receiver are the same labelled object."""
+    from ..qhelp import UUID_RE
+
+    ren = {}
+    for t in tn.tensor_map.values():
+        for ix in t.inds:
+            if ix not in ren and isinstance(ix, str) and UUID_RE.fullmatch(ix):
+                ren[ix] = "%s%d" % (prefix, len(ren))
+    if ren:
+        tn.reindex_(ren)
+    return tn
+
+
 def build_receiver(name):
-    return _RECV[name]()
+    import quimb.tensor as qtn
+
+    x = _RECV[name]()
+    if isinstance(x, qtn.TensorNetwork):
+        _det_names(x)
+    return x
 
 
 def _T(shape, inds, tags, key, dtype="complex128", kind="generic", left_inds=None, **kw):
@@ -108,6 +159,13 @@ def _():
 @receiver("T.rep")
 def _():
     return _T((2, 2, 3), ("a", "a", "b"), ("X",), "T.rep", dtype="float64")
+
+
+@receiver("T.iso")
+def _():
+    import quimb.tensor as qtn
+
+    return qtn.IsoTensor(fill("generic", (2, 3, 4), "float64", key=("c03recv", "T.iso")), ("a", "b", "c"), ("X",), left_inds=("a", "b"))
 
 
 @receiver("T.fused")
@@ -224,11 +282,16 @@ def _():
     )
 
 
-def _gen_vec():
+def _gen_vec(key="G.vec"):
     import quimb.tensor as qtn
 
-    tn = qtn.TN_from_edges_rand([(0, 1), (1, 2), (2, 0)], D=2, phys_dim=2, seed=7, dtype="complex128")
-    return _refill(tn, "G.vec")
+    ts = [
+        _T((2, 2, 2), ("u", "w", "k0"), ("I0",), (key, 0)),
+        _T((2, 3, 2), ("u", "v", "k1"), ("I1",), (key, 1)),
+        _T((3, 2, 2), ("v", "w", "k2"), ("I2",), (key, 2)),
+    ]
+    tn = qtn.TensorNetwork(ts)
+    return tn.view_as_(qtn.TensorNetworkGenVector, sites=(0, 1, 2), site_tag_id="I{}", site_ind_id="k{}")
 
 
 @receiver("G.vec")
@@ -346,6 +409,8 @@ OPERATORS = {
     "op:itruediv": operator.itruediv,
     "op:iand": operator.iand,
     "op:ior": operator.ior,
+    "op:iadd": operator.iadd,
+    "op:isub": operator.isub,
 }
 
 # documented exemptions (reported in the evidence)
@@ -364,7 +429,7 @@ def group(g):
     _GROUP[0] = g
 
 
-def D(name, recvs, args=None, label="", flags="", inplace="auto", thorough_only=False, why=None):
+def D(name, recvs, args=None, label="", flags="", inplace="auto", thorough_only=False, why=None, quick_too=False):
     """Declare one domain entry.  flags (space separated):
     dense / value : comparison mode under storage variants (gauge dependent)
     noperm / noorder : positional by definition (stated in ``why``)
@@ -385,6 +450,7 @@ def D(name, recvs, args=None, label="", flags="", inplace="auto", thorough_only=
         "flags": fl,
         "inplace_spec": inplace,
         "thorough_only": thorough_only,
+        "quick_too": quick_too,
     }
     if why:
         EXEMPTIONS[eid] = "%s: %s" % (" ".join(sorted(fl)), why)
@@ -415,6 +481,11 @@ def entry(eid, rname):
     ent = dict(_BY_ID[eid])
     cls = _recv_class(rname)
     name = ent["name"]
+    if name.split(":")[0] in ("q", "p", "mut"):
+        ent["owner"] = _owner(cls, name.split(":", 1)[1])
+        ent["plain"] = name
+        ent["inplace"] = None
+        return ent
     if name in OPERATORS:
         ent["owner"] = cls.__mro__[-2].__name__ if cls.__mro__[-2].__name__ in ("Tensor", "TensorNetwork") else cls.__name__
         ent["plain"] = name
@@ -468,6 +539,22 @@ def reflect_classes():
     ]
 
 
+@functools.lru_cache(maxsize=None)
+def all_classes():
+    """Every Tensor / TensorNetwork subclass exported by quimb.tensor, plus
+    all their bases (mixins): the scope of the static alias check."""
+    import quimb.tensor as qtn
+
+    out = {}
+    for n in dir(qtn):
+        o = getattr(qtn, n)
+        if inspect.isclass(o) and issubclass(o, (qtn.Tensor, qtn.TensorNetwork)):
+            for b in o.__mro__:
+                if b is not object and issubclass(b, (qtn.Tensor, qtn.TensorNetwork)):
+                    out[b.__name__] = b
+    return out
+
+
 def discover():
     """{(owner class, method name): kind} over the reflected classes; kind is
     'pair' (f and f_ both exist) or 'inplace-kw'."""
@@ -496,7 +583,7 @@ def coverage_report():
     found = discover()
     covered = set()
     for ent in _ENTRIES:
-        if ent["name"] in OPERATORS:
+        if ent["name"] in OPERATORS or ":" in ent["name"]:
             continue
         for r in ent["recvs"]:
             covered.add((_owner(_recv_class(r), ent["name"]), ent["name"]))
@@ -513,12 +600,12 @@ TALL = "T.abc T.left T.sq T.one"
 D("astype", "T.abc T.sq", lambda x, H: (("complex64",), {}), "c64")
 D("astype", "T.sq", lambda x, H: (("float32",), {}), "f32")
 D("collapse_repeated", "T.rep T.abc")
-D("conj", TALL)
+D("conj", TALL + " T.iso")
 D("direct_product", "T.abc", lambda x, H: ((H.tensor((2, 3, 2), ("a", "b", "c"), ("Z",), "dp"),), {}), "all")
 D("direct_product", "T.abc", lambda x, H: ((H.tensor((3, 2, 2), ("b", "c", "a"), ("Z",), "dp2"),), {"sum_inds": ("a",)}), "sum-a")
 D("direct_product", "T.abc", lambda x, H: ((H.tensor((2, 2, 3), ("c", "a", "b"), ("Z",), "dp3"),), {"sum_inds": ("c", "a")}), "sum-ca")
 D("flip", "T.abc T.sq", lambda x, H: (("b",), {}), "b")
-D("fuse", "T.abc T.left", lambda x, H: (({"ab": ("a", "b")},), {}), "ab")
+D("fuse", "T.abc T.left T.iso", lambda x, H: (({"ab": ("a", "b")},), {}), "ab")
 D("fuse", "T.abc", lambda x, H: (({"ca": ("c", "a")},), {}), "ca")
 D("fuse", "T.abc", lambda x, H: (({"cba": ("c", "b", "a")},), {}), "cba")
 D("fuse", "T.one", lambda x, H: (({"ae": ("a", "e")},), {}), "ae")
@@ -532,7 +619,7 @@ D("isel", "T.rep", lambda x, H: (({"a": 1},), {}), "rep")
 D("isometrize", "T.left T.abc", lambda x, H: ((("a", "b"),), {"method": "svd"}), "svd")
 D("isometrize", "T.left", lambda x, H: ((), {"method": "qr"}), "qr-stored", "noperm", why="QR orthogonalises columns in stored order of the right labels: positional by definition")
 D("unitize", "T.left", lambda x, H: ((("a", "b"),), {"method": "svd"}), "svd")
-D("moveindex", "T.abc", lambda x, H: (("c", 0), {}), "c0")
+D("moveindex", "T.abc T.left", lambda x, H: (("c", 0), {}), "c0")
 D("moveindex", "T.abc T.one", lambda x, H: (("a", -1), {}), "a-1")
 D("multiply_index_diagonal", TALL, lambda x, H: (("b", H.arr((x.ind_size("b"),), "mid")), {}), "b")
 D("negate", "T.abc T.sq")
@@ -541,7 +628,7 @@ D("new_ind_pair_with_identity", "T.abc", lambda x, H: (("l", "r", 2), {}), "lr2"
 D("normalize", "T.abc T.left")
 D("rand_reduce", "T.abc", lambda x, H: (("b",), {"seed": 11}), "b")
 D("randomize", "T.abc T.sq", lambda x, H: ((), {"seed": 5}), "seed", "noperm", why="fresh random entries are laid out in stored order: positional by definition")
-D("reindex", TALL, lambda x, H: (({"a": "z"},), {}), "a->z")
+D("reindex", TALL + " T.iso", lambda x, H: (({"a": "z"},), {}), "a->z")
 D("reindex", "T.abc", lambda x, H: (({"a": "c", "c": "a"},), {}), "swap")
 D("retag", "T.abc", lambda x, H: (({"X": "Q"},), {}), "X->Q")
 D("retag", "T.abc", lambda x, H: (({"X": "Y"},), {}), "merge")
@@ -553,9 +640,9 @@ D("sum_reduce", "T.abc", lambda x, H: (("a",), {}), "a")
 D("symmetrize", "T.sq", lambda x, H: (("a", "b"), {}), "ab")
 D("symmetrize", "T.sq", lambda x, H: (("b", "a"), {}), "ba")
 D("to", "T.abc", lambda x, H: ((), {"dtype": "complex64"}), "dtype")
-D("transpose", "T.abc T.left", lambda x, H: (("c", "a", "b"), {}), "cab")
+D("transpose", "T.abc T.left T.iso", lambda x, H: (("c", "a", "b"), {}), "cab")
 D("transpose", "T.one", lambda x, H: (("b", "e", "a"), {}), "bea")
-D("transpose_like", "T.abc", lambda x, H: ((H.tensor((2, 3, 2), ("c", "b", "a"), ("Z",), "tl"),), {}), "cba")
+D("transpose_like", "T.abc T.left", lambda x, H: ((H.tensor((2, 3, 2), ("c", "b", "a"), ("Z",), "tl"),), {}), "cba")
 D("transpose_like", "T.abc", lambda x, H: ((H.tensor((2, 3, 2), ("c", "b", "q"), ("Z",), "tl2"),), {}), "one-unmatched")
 D("unfuse", "T.fused", lambda x, H: (({"ab": ("a", "b")}, {"ab": (2, 3)}), {}), "ab")
 D("vector_reduce", TALL, lambda x, H: (("b", H.arr((x.ind_size("b"),), "vr")), {}), "b")
@@ -591,9 +678,9 @@ NGEN = "N.loop N.multi N.hyper"
 NALL = "N.loop N.multi N.hyper N.struct N.tree"
 GAUGE_WHY = "QR/SVD based: individual tensors are gauge dependent, only the labelled whole is compared"
 
-D("antidiag_gauge", "N.struct N.loop")
+D("antidiag_gauge", "N.struct N.loop", None, "", "dense", why="flips one of the two neighbours of the antidiagonal tensor: a gauge choice")
 D("astype", "N.loop N.multi", lambda x, H: (("complex64",), {}), "c64")
-D("balance_bonds", "N.loop N.multi N.tree")
+D("balance_bonds", "N.loop N.tree", None, "", "dense", why="bonds are balanced one after the other: per-tensor values are a gauge choice")
 D("canonize_around", "N.tree N.loop", lambda x, H: (("B",), {}), "B", "dense", why=GAUGE_WHY)
 D("canonize_around", "N.tree", lambda x, H: (("A",), {"max_distance": 1, "absorb": "left"}), "A-d1-left", "dense", why=GAUGE_WHY)
 D("column_reduce", "N.struct N.loop")
@@ -605,11 +692,16 @@ D("compress_all_tree", "N.tree N.multi", lambda x, H: ((), {}), "default", "dens
 D("compress_simplify", "N.struct N.loop", lambda x, H: ((), {"output_inds": tuple(x.outer_inds())}), "default", "value", why="simplification sequence may legitimately choose other intermediate structure; value compared")
 D("conj", NALL)
 D("conj", "N.loop", lambda x, H: ((), {"mangle_inner": True}), "mangle", "dense", why="mangled inner labels are fresh names")
-D("contract", NALL, lambda x, H: ((), {}), "all", inplace=None)
+D("contract", "N.loop N.multi N.struct N.tree", lambda x, H: ((), {}), "all", inplace=None)
 D("contract", "N.loop N.tree", lambda x, H: ((("A", "B"),), {}), "tags-AB")
 D("contract", "N.loop N.hyper", lambda x, H: ((...,), {"output_inds": ("c", "a")}), "all-out-ca", inplace=None)
 D("contract", "N.loop", lambda x, H: ((), {"strip_exponent": True}), "strip", inplace=None)
-D("contract_around", "N.tree N.loop", lambda x, H: (("B",), {}), "B", "dense", why=GAUGE_WHY)
+D("contract", "N.loop N.tree", lambda x, H: (("A",), {"output_inds": tuple(reversed(x["A"].inds))}), "one-tensor-out-reversed")
+D("contract", "N.loop", lambda x, H: (("A",), {"strip_exponent": True, "equalize_norms": False}), "one-tensor-strip")
+D("contract_tags", "N.loop", lambda x, H: (("A",), {"output_inds": tuple(reversed(x["A"].inds))}), "A-out-reversed")
+D("contract_tags", "N.loop", lambda x, H: ((("A", "B"),), {"strip_exponent": True, "equalize_norms": False}), "AB-strip-noeq")
+D("contract_around", "N.tree N.loop", lambda x, H: (("B",), {}), "B", "dense collapses", why=GAUGE_WHY + "; the in-place spelling keeps a one-tensor network (documented for contract)")
+D("contract_compressed", "N.loop P.tn2d", lambda x, H: (("greedy-compressed",), {"max_bond": 64, "cutoff": 0.0, "output_inds": tuple(sorted(x.outer_inds()))}), "exact", "value collapses", why=GAUGE_WHY + "; in-place keeps a one-tensor network")
 D("contract_tags", "N.loop N.multi N.tree", lambda x, H: ((("A", "B"),), {}), "AB-any")
 D("contract_tags", "N.loop", lambda x, H: ((("A", "G"),), {"which": "all"}), "AG-all")
 D("contract_tags", "N.loop", lambda x, H: ((("A", "B"),), {"strip_exponent": True}), "AB-strip")
@@ -631,8 +723,8 @@ D("gate_inds", "N.loop N.hyper", lambda x, H: ((H.arr((2, 2), "gi1"), ["a"]), {}
 D("gate_inds", "N.loop", lambda x, H: ((H.arr((2, 2), "gi1"), ["a"]), {"contract": True}), "1-contract")
 D("gate_inds", "N.loop", lambda x, H: ((H.arr((4, 4), "gi2"), ["a", "c"]), {"contract": False}), "2-lazy")
 D("gate_inds", "N.loop", lambda x, H: ((H.arr((4, 4), "gi2"), ["c", "a"]), {"contract": True}), "2-contract")
-D("gate_inds", "N.tree", lambda x, H: ((H.arr((4, 4), "gi2"), ["a", "c"]), {"contract": "split", "cutoff": 0.0}), "2-split", "dense", why=GAUGE_WHY)
-D("gate_inds", "N.tree", lambda x, H: ((H.arr((4, 4), "gi2"), ["a", "c"]), {"contract": "reduce-split", "cutoff": 0.0}), "2-reduce-split", "dense", why=GAUGE_WHY)
+D("gate_inds", "N.loop", lambda x, H: ((H.arr((4, 4), "gi2"), ["a", "c"]), {"contract": "split", "cutoff": 0.0}), "2-split", "dense", why=GAUGE_WHY)
+D("gate_inds", "N.loop", lambda x, H: ((H.arr((4, 4), "gi2"), ["c", "a"]), {"contract": "reduce-split", "cutoff": 0.0}), "2-reduce-split", "dense", why=GAUGE_WHY)
 D("gate_inds", "N.loop", lambda x, H: ((H.arr((2, 2, 2, 2), "gi3"), ["a", "c"]), {"contract": False, "tags": ["GATE"]}), "2-tensorshape")
 D("gate_inds", "N.loop", lambda x, H: ((H.arr((2, 2), "gi1"), ["a"]), {"transpose": True, "contract": True}), "1-transpose")
 D("gate_inds", "N.loop", lambda x, H: ((H.arr((2, 2), "gi1"), ["a"]), {"dagger": True, "contract": True}), "1-dagger")
@@ -651,7 +743,7 @@ D("gauge_all_random", "N.loop", lambda x, H: ((), {"seed": 3}), "seed", "dense n
 D("gauge_all_simple", "N.loop N.tree", lambda x, H: ((), {"max_iterations": 3}), "it3", "dense", why=GAUGE_WHY)
 D("gauge_local", "N.tree N.loop", lambda x, H: (("B",), {}), "B", "dense", why=GAUGE_WHY)
 D("hyperinds_resolve", "N.hyper", lambda x, H: ((), {"mode": "dense"}), "dense", "dense", why="fresh labels")
-D("hyperinds_resolve", "N.hyper", lambda x, H: ((), {"mode": "sparse"}), "sparse", "dense", why="fresh labels")
+D("hyperinds_resolve", "N.hyper", lambda x, H: ((), {"mode": "mps"}), "mps", "value", why="chain order follows the documented sorter (tensor order)")
 D("hyperinds_resolve", "N.hyper", lambda x, H: ((), {"mode": "tree"}), "tree", "value", why="tree shape follows the documented sorter (tensor order)")
 D("insert_compressor_between_regions", "N.loop", lambda x, H: ((["A"], ["B", "C"]), {"max_bond": 4, "cutoff": 0.0}), "A|BC", "value", why=GAUGE_WHY)
 D("insert_operator", "N.braket", lambda x, H: ((H.arr((2, 2), "io"), "K1", "B1"), {"tags": ["OP"]}), "m")
@@ -661,11 +753,12 @@ D("isel", "N.hyper", lambda x, H: (({"h": 2},), {}), "h2")
 D("isometrize", "N.left", lambda x, H: ((), {"method": "svd"}), "svd")
 D("unitize", "N.left", lambda x, H: ((), {"method": "svd"}), "svd")
 D("loop_simplify", "N.loop N.struct", lambda x, H: ((), {"output_inds": tuple(x.outer_inds())}), "default", "value", why="simplification; value compared")
-D("multiply", NGEN, lambda x, H: ((2.5,), {}), "2.5")
-D("multiply", "N.loop", lambda x, H: ((-0.5 + 1j,), {"spread_over": 2}), "complex-spread2")
+SPREAD_WHY = "the factor is spread over the first tensors in network order: per-tensor values are a gauge choice"
+D("multiply", NGEN, lambda x, H: ((2.5,), {}), "2.5", "dense", why=SPREAD_WHY)
+D("multiply", "N.loop", lambda x, H: ((-0.5 + 1j,), {"spread_over": 2}), "complex-spread2", "dense", why=SPREAD_WHY)
 D("multiply", "N.loop", lambda x, H: ((3.0,), {"spread_over": "all"}), "spread-all")
 D("multiply_each", NGEN, lambda x, H: ((1.5,), {}), "1.5")
-D("negate", "N.loop N.hyper")
+D("negate", "N.loop N.hyper", None, "", "dense", why=SPREAD_WHY)
 D("pair_simplify", "N.struct N.loop N.tree", lambda x, H: ((), {"output_inds": tuple(x.outer_inds())}), "default", "value", why="simplification; value compared")
 D("randomize", "N.loop", lambda x, H: ((), {"seed": 1}), "seed", "noperm noorder", why="fresh random entries are laid out in stored order")
 D("rank_simplify", "N.struct N.loop N.tree N.hyper", lambda x, H: ((), {"output_inds": tuple(x.outer_inds())}), "default", "value", why="simplification; value compared")
@@ -684,19 +777,19 @@ D("to", "N.loop", lambda x, H: ((), {"dtype": "complex64"}), "dtype")
 D("vector_reduce", NGEN, lambda x, H: (("a", H.arr((2,), "vr")), {}), "a")
 D("view_as", "N.op", lambda x, H: ((_qtn().TensorNetworkGenOperator,), {"sites": (0, 1), "site_tag_id": "I{}", "upper_ind_id": "k{}", "lower_ind_id": "b{}"}), "genop")
 D("view_like", "N.op", lambda x, H: ((build_receiver("G.op"),), {}), "genop")
-D("from_TN", "N.op", lambda x, H: ((), {"like": build_receiver("G.op")}), "genop")
+D("from_TN", "N.op", lambda x, H: ((x,), {"like": build_receiver("G.op")}), "genop", "self-arg")
 D("partition", "N.loop", lambda x, H: ((["A", "B"],), {}), "AB", "inplace-returns-other")
-D("partition_tensors", "N.loop", lambda x, H: ((["A", "B"],), {}), "AB", "inplace-returns-other")
+D("partition_tensors", "N.loop", lambda x, H: ((["A", "B"],), {}), "AB", "inplace-returns-other noorder", why="returns the tagged tensors as a list in network order: positional by definition")
 D("fit", "N.tree", lambda x, H: ((build_receiver("N.tree").multiply_each(1.1),), {"method": "als", "steps": 3, "tol": 0.0}), "als-3", "noperm noorder", why="iterative optimiser: sweep order follows tensor order", thorough_only=True)
 
 # operators on networks
 D("op:and", "N.loop", lambda x, H: ((H.tensor((2, 3), ("c", "d"), ("Z",), "na"),), {}), "tensor", inplace="op:iand")
 D("op:and", "N.loop", lambda x, H: ((build_receiver("N.tree").reindex({"a": "c", "c": "cc", "x": "x2", "y": "y2", "z": "z2"}),), {}), "network", inplace="op:iand")
 D("op:or", "N.loop", lambda x, H: ((H.tensor((2, 3), ("c", "d"), ("Z",), "no"),), {}), "tensor", "alias-ok", inplace="op:ior", why="| is the documented virtual combination")
-D("op:mul", "N.loop N.hyper", lambda x, H: ((2.5,), {}), "scalar", inplace="op:imul")
-D("op:rmul", "N.loop", lambda x, H: ((2.5,), {}), "scalar")
-D("op:truediv", "N.loop", lambda x, H: ((2.5,), {}), "scalar", inplace="op:itruediv")
-D("op:neg", "N.loop")
+D("op:mul", "N.loop N.hyper", lambda x, H: ((2.5,), {}), "scalar", "dense", inplace="op:imul", why=SPREAD_WHY)
+D("op:rmul", "N.loop", lambda x, H: ((2.5,), {}), "scalar", "dense", why=SPREAD_WHY)
+D("op:truediv", "N.loop", lambda x, H: ((2.5,), {}), "scalar", "dense", inplace="op:itruediv", why=SPREAD_WHY)
+D("op:neg", "N.loop", None, "", "dense", why=SPREAD_WHY)
 D("op:matmul", "N.loop", lambda x, H: ((build_receiver("N.tree").reindex({"x": "x2", "y": "y2", "z": "z2"}),), {}), "network")
 
 
@@ -704,3 +797,414 @@ def _qtn():
     import quimb.tensor as qtn
 
     return qtn
+
+
+# --------------------------------------------------------------------------- #
+#                    arbitrary geometry: Gen / Vector / Operator              #
+# --------------------------------------------------------------------------- #
+
+group("G")
+
+
+def _gen_op(key, sites=(0, 1, 2), bond=2):
+    """operator network on the triangle, matching G.vec / G.op structure"""
+    import quimb.tensor as qtn
+
+    labels = {0: ("u_", "w_"), 1: ("u_", "v_"), 2: ("v_", "w_")}
+    ts = [_T((2, 2) + tuple(bond for _ in labels[i]), ("k%d" % i, "b%d" % i) + labels[i], ("I%d" % i, "OP"), (key, i)) for i in sites]
+    if len(sites) < 3:
+        # drop dangling bonds of absent sites
+        present = {}
+        for i in sites:
+            for l in labels[i]:
+                present[l] = present.get(l, 0) + 1
+        ts = [t.isel({l: 0 for l in labels[i] if present[l] == 1}) for t, i in zip(ts, sites)]
+    tn = qtn.TensorNetwork(ts)
+    return tn.view_as_(qtn.TensorNetworkGenOperator, sites=sites, site_tag_id="I{}", upper_ind_id="k{}", lower_ind_id="b{}")
+
+
+def _gauges_for(x):
+    """simple-update gauges: one positive vector per bond, keyed by label (a
+    pure function of the label, not of any storage order)"""
+    return {ix: H.arr((x.ind_size(ix),), ("gauge", ix), "float64", kind="positive") for ix in sorted(x.inner_inds())}
+
+
+D("flatten", "G.vec", lambda x, H: ((), {}), "flat-already")
+D("retag_all", "G.vec G.op", lambda x, H: (("S{}",), {}), "S")
+D("retag_sites", "G.vec", lambda x, H: (("S{}",), {"where": [0, 2]}), "S-02")
+D("reindex_all", "G.vec", lambda x, H: (("q{}",), {}), "q")
+D("reindex_sites", "G.vec", lambda x, H: (("q{}",), {"where": [0, 2]}), "q-02")
+D("align", "G.vec", lambda x, H: ((_gen_op("al"), build_receiver("G.vec").conj()), {}), "vec-op-vec", "inplace-returns-other inplace-mutates-args", why="variadic: returns the list of aligned networks; inplace=True relabels every network given (documented)")
+D("gate", "G.vec", lambda x, H: ((H.arr((2, 2), "gg1"), 1), {}), "1-lazy")
+D("gate", "G.vec", lambda x, H: ((H.arr((2, 2), "gg1"), 1), {"contract": True}), "1-contract")
+D("gate", "G.vec", lambda x, H: ((H.arr((4, 4), "gg2"), (0, 2)), {"contract": False}), "2-lazy")
+D("gate", "G.vec", lambda x, H: ((H.arr((4, 4), "gg2"), (2, 0)), {"contract": True}), "2-contract")
+D("gate", "G.vec", lambda x, H: ((H.arr((4, 4), "gg2"), (0, 1)), {"contract": "split", "cutoff": 0.0}), "2-split", "dense", why=GAUGE_WHY)
+D("gate", "G.vec", lambda x, H: ((H.arr((4, 4), "gg2"), (1, 0)), {"contract": "reduce-split", "cutoff": 0.0}), "2-reduce-split", "dense", why=GAUGE_WHY)
+D("gate", "G.vec", lambda x, H: ((H.arr((4, 4), "gg2"), (0, 1)), {"contract": True, "dagger": True}), "2-dagger")
+D("gate", "G.vec", lambda x, H: ((H.arr((4, 4), "gg2"), (0, 1)), {"contract": True, "transpose": True}), "2-transpose")
+D("gate_simple", "G.vec", lambda x, H: ((H.arr((4, 4), "gs2"), (0, 1), _gauges_for(x)), {"renorm": False}), "2", "dense impure-ok", why=GAUGE_WHY + "; gate_simple mutates the caller's gauges (documented)")
+D("gate_simple", "G.vec", lambda x, H: ((H.arr((2, 2), "gs1"), (2,), _gauges_for(x)), {}), "1", "dense impure-ok", why=GAUGE_WHY + "; gauges in/out")
+D("gate_with_op_lazy", "G.vec", lambda x, H: ((_gen_op("gwol"),), {}), "full")
+D("gate_with_op_lazy", "G.vec", lambda x, H: ((_gen_op("gwol"),), {"transpose": True}), "full-T")
+D("op:add", "G.vec", lambda x, H: ((_gen_vec("other"),), {}), "vec", "dense", inplace="op:iadd", why="direct sum: block layout is a gauge choice")
+D("op:sub", "G.vec", lambda x, H: ((_gen_vec("other"),), {}), "vec", "dense", inplace="op:isub", why="direct sum: block layout is a gauge choice")
+
+D("apply", "G.op", lambda x, H: ((_gen_vec("appl"),), {}), "to-vec", "dense inplace-returns-other", why="contracts site pairs and fuses multibonds")
+D("apply", "G.op", lambda x, H: ((_gen_op("appl2"),), {}), "to-op", "dense inplace-returns-other", why="contracts site pairs and fuses multibonds")
+D("apply", "G.op", lambda x, H: ((_gen_vec("appl"),), {"contract": False}), "to-vec-lazy", "inplace-returns-other", why="apply_ consumes the operator and returns a network like `other` (documented)")
+D("dot", "G.op", lambda x, H: ((_gen_vec("appl"),), {}), "to-vec", "dense inplace-returns-other", why="contracts site pairs and fuses multibonds")
+D("gate", "G.op", lambda x, H: ((H.arr((2, 2), "gg1"), 1), {"which": "upper", "contract": True}), "op-1-upper")
+D("gate_upper", "G.op", lambda x, H: ((H.arr((4, 4), "gg2"), (0, 2)), {"contract": True}), "2-contract")
+D("gate_upper", "G.op", lambda x, H: ((H.arr((2, 2), "gg1"), 1), {}), "1-lazy")
+D("gate_lower", "G.op", lambda x, H: ((H.arr((4, 4), "gg2"), (0, 2)), {"contract": True}), "2-contract")
+D("gate_lower", "G.op", lambda x, H: ((H.arr((2, 2), "gg1"), 1), {"transpose": True}), "1-lazy-T")
+D("gate_sandwich", "G.op", lambda x, H: ((H.arr((4, 4), "gg2"), (1, 2)), {"contract": True}), "2-contract")
+D("gate_sandwich", "G.op", lambda x, H: ((H.arr((2, 2), "gg1"), 0), {}), "1-lazy")
+D("gate_simple", "G.op", lambda x, H: ((H.arr((4, 4), "gs2"), (0, 1), _gauges_for(x)), {"renorm": False}), "op-2", "dense impure-ok", why=GAUGE_WHY + "; gauges in/out")
+D("gate_upper_with_op_lazy", "G.op", lambda x, H: ((_gen_op("guwol"),), {}), "full")
+D("gate_lower_with_op_lazy", "G.op", lambda x, H: ((_gen_op("glwol"),), {}), "full")
+D("gate_sandwich_with_op_lazy", "G.op", lambda x, H: ((_gen_op("gswol"),), {}), "full")
+D("partial_transpose", "G.op", lambda x, H: (([0, 2],), {}), "02")
+D("reindex_lower_sites", "G.op", lambda x, H: (("q{}",), {"where": [1]}), "q-1")
+D("reindex_upper_sites", "G.op", lambda x, H: (("q{}",), {}), "q-all")
+D("reindex_lower_sites", "M.mpo3", lambda x, H: (("q{}",), {"where": slice(1, 2)}), "mpo-q-1")
+D("reindex_upper_sites", "M.mpo3", lambda x, H: (("q{}",), {}), "mpo-q-all")
+
+# --------------------------------------------------------------------------- #
+#                                     1D                                      #
+# --------------------------------------------------------------------------- #
+
+group("M")
+MPSS = "M.mps3 M.mps4"
+
+D("add_MPS", "M.mps3", lambda x, H: ((H.mps((2, 3, 2), (2, 2), "add"),), {}), "same-dims", "dense", why="direct sum: block layout is a gauge choice")
+D("add_MPS", "M.mps3", lambda x, H: ((H.mps((2, 3, 2), (1, 2), "add2"),), {"compress": True, "cutoff": 1e-12}), "compress", "dense", why=GAUGE_WHY)
+D("op:add", "M.mps3", lambda x, H: ((H.mps((2, 3, 2), (2, 2), "add"),), {}), "mps", "dense", inplace="op:iadd", why="direct sum")
+D("op:sub", "M.mps3", lambda x, H: ((H.mps((2, 3, 2), (2, 2), "add"),), {}), "mps", "dense", inplace="op:isub", why="direct sum")
+D("add_MPO", "M.mpo3", lambda x, H: ((H.mpo((2, 2, 2), (2, 2), "addo"),), {}), "same-dims", "dense", why="direct sum")
+D("op:add", "M.mpo3", lambda x, H: ((H.mpo((2, 2, 2), (2, 2), "addo"),), {}), "mpo", "dense", inplace="op:iadd", why="direct sum")
+D("canonicalize", MPSS + " M.mpo3", lambda x, H: ((1,), {}), "1", "dense", why=GAUGE_WHY)
+D("canonicalize", "M.mps4", lambda x, H: (((1, 2),), {}), "1-2", "dense", why=GAUGE_WHY)
+D("canonize", "M.mps3", lambda x, H: ((1,), {}), "1", "dense", why=GAUGE_WHY)
+D("left_canonicalize", MPSS, lambda x, H: ((), {}), "all", "dense", why=GAUGE_WHY)
+D("left_canonicalize", "M.mps4", lambda x, H: ((), {"stop": 2, "normalize": True}), "stop2-norm", "dense", why=GAUGE_WHY)
+D("right_canonicalize", MPSS + " M.mpo3", lambda x, H: ((), {}), "all", "dense", why=GAUGE_WHY)
+D("left_canonize", "M.mps3", lambda x, H: ((), {}), "all", "dense", why=GAUGE_WHY)
+D("right_canonize", "M.mps3", lambda x, H: ((), {}), "all", "dense", why=GAUGE_WHY)
+D("expand_bond_dimension", "M.mps3 M.mpo3", lambda x, H: ((4,), {}), "1d-to4")
+D("expand_bond_dimension", "M.mps3", lambda x, H: ((4,), {"rand_strength": 0.0, "create_bond": True}), "1d-to4-create")
+D("flip", "M.mps3 M.mps4", lambda x, H: ((), {}), "mps")
+D("flatten", "M.mps3", lambda x, H: ((), {}), "mps-flat-already")
+D("gate", MPSS, lambda x, H: ((H.arr((x.phys_dim(1), x.phys_dim(1)), "mg1"), 1), {}), "1-lazy")
+D("gate", MPSS, lambda x, H: ((H.arr((x.phys_dim(1), x.phys_dim(1)), "mg1"), 1), {"contract": True}), "1-contract")
+D("gate", "M.mps4", lambda x, H: ((H.arr((4, 4), "mg2"), (1, 2)), {"contract": False}), "2-lazy")
+D("gate", "M.mps4", lambda x, H: ((H.arr((4, 4), "mg2"), (1, 2)), {"contract": True}), "2-contract")
+D("gate", "M.mps4", lambda x, H: ((H.arr((4, 4), "mg2"), (1, 2)), {"contract": "split", "cutoff": 0.0}), "2-split", "dense", why=GAUGE_WHY)
+D("gate", "M.mps4", lambda x, H: ((H.arr((4, 4), "mg2"), (2, 1)), {"contract": "reduce-split", "cutoff": 0.0}), "2-reduce-split", "dense", why=GAUGE_WHY)
+D("gate", "M.mps4", lambda x, H: ((H.arr((4, 4), "mg2"), (0, 3)), {"contract": "swap+split", "cutoff": 0.0}), "2-swap+split", "dense", why=GAUGE_WHY)
+D("gate", "M.mps4", lambda x, H: ((H.arr((4, 4), "mg2"), (0, 2)), {"contract": "nonlocal", "cutoff": 0.0}), "2-nonlocal", "dense", why=GAUGE_WHY)
+D("gate", "M.mps3", lambda x, H: ((H.arr((6, 6), "mg23"), (0, 1)), {"contract": "swap+split", "cutoff": 0.0}), "2-mixed-dims", "dense", why=GAUGE_WHY)
+D("gate_split", "M.mps4", lambda x, H: ((H.arr((4, 4), "mg2"), (1, 2)), {"cutoff": 0.0}), "12", "dense", why=GAUGE_WHY)
+D("gate_split", "M.mps3", lambda x, H: ((H.arr((6, 6), "mg23"), (0, 1)), {"cutoff": 0.0}), "01-mixed", "dense", why=GAUGE_WHY)
+D("gate_nonlocal", "M.mps4", lambda x, H: ((H.arr((4, 4), "mg2"), (0, 3)), {"cutoff": 0.0}), "03", "dense", why=GAUGE_WHY)
+D("gate_nonlocal", "M.mps4", lambda x, H: ((H.arr((4, 4), "mg2"), (2, 0)), {"cutoff": 0.0, "transpose": True}), "20-T", "dense", why=GAUGE_WHY)
+D("gate_with_auto_swap", "M.mps4", lambda x, H: ((H.arr((4, 4), "mg2"), (0, 2)), {"cutoff": 0.0}), "02", "dense", why=GAUGE_WHY)
+D("gate_with_auto_swap", "M.mps4", lambda x, H: ((H.arr((4, 4), "mg2"), (3, 1)), {"cutoff": 0.0, "swap_back": False}), "31-noswapback", "dense", why=GAUGE_WHY)
+D("gate_with_mpo", "M.mps3", lambda x, H: ((H.mpo((2, 3, 2), (2, 2), "gwm"),), {"cutoff": 0.0}), "direct", "dense", why=GAUGE_WHY)
+D("gate_with_mpo", "M.mps3", lambda x, H: ((H.mpo((2, 3, 2), (2, 2), "gwm"),), {"method": "zipup", "cutoff": 0.0, "transpose": True}), "zipup-T", "dense", why=GAUGE_WHY)
+D("gate_with_submpo", "M.mps4", lambda x, H: ((H.mpo((2, 2), (2,), "gws", sites=[1, 2], L=4),), {"cutoff": 0.0}), "12", "dense", why=GAUGE_WHY)
+D("gate_with_submpo", "M.mps4", lambda x, H: ((H.mpo((2, 2), (2,), "gws", sites=[0, 2], L=4),), {"method": "lazy"}), "02-lazy")
+D("gate_with_op_lazy", "M.mps3", lambda x, H: ((H.mpo((2, 3, 2), (2, 2), "gwm"),), {}), "mpo")
+D("measure", "M.mps3", lambda x, H: ((1,), {"outcome": 2}), "1-out2", "dense inplace-returns-other", why=GAUGE_WHY + "; returns (outcome, state)")
+D("measure", "M.mps3", lambda x, H: ((0,), {"seed": 7}), "0-seeded", "dense inplace-returns-other", why=GAUGE_WHY + "; returns (outcome, state)")
+D("measure", "M.mps4", lambda x, H: ((2,), {"outcome": 1, "remove": True, "renorm": False}), "2-remove", "dense inplace-returns-other", why=GAUGE_WHY + "; returns (outcome, state)")
+D("reindex_sites", MPSS, lambda x, H: (("q{}",), {"where": [0, 2]}), "q-02")
+D("retag_sites", "M.mps3", lambda x, H: (("S{}",), {}), "S")
+D("swap_site_to", "M.mps4", lambda x, H: ((0, 2), {"cutoff": 0.0}), "0->2", "dense", why=GAUGE_WHY)
+D("swap_site_to", "M.mps3", lambda x, H: ((2, 0), {"cutoff": 0.0}), "2->0-mixed", "dense", why=GAUGE_WHY)
+D("swap_sites_with_compress", "M.mps4 M.mps3", lambda x, H: ((0, 1), {"cutoff": 0.0}), "01", "dense", why=GAUGE_WHY)
+D("as_cyclic", "M.mps3 M.mpo3", lambda x, H: ((), {}), "open")
+D("compute_local_expectation", "M.mps3", lambda x, H: (({(0,): H.arr((2, 2), "t0"), (1, 2): H.arr((6, 6), "t12")},), {"normalized": True, "return_all": True}), "canonical", "value inplace-returns-other", why="returns numbers")
+D("compute_local_expectation_canonical", "M.mps4", lambda x, H: (({(0, 1): H.arr((4, 4), "t01"), (3,): H.arr((2, 2), "t3")},), {}), "sum", "value inplace-returns-other", why="returns numbers")
+D("contract_structured", "M.mps3", lambda x, H: ((slice(0, 2),), {}), "0:2")
+D("contract_structured", "M.mps4", lambda x, H: ((...,), {"structure_bsz": 2}), "all-bsz2", "collapses", why="the in-place spelling keeps a one-tensor network")
+D("fill_empty_sites", "M.mpo3", lambda x, H: ((), {}), "nothing-missing")
+D("gate_sandwich_with_auto_swap", "M.mpo3", lambda x, H: ((H.arr((4, 4), "gsas"), (0, 2)), {"cutoff": 0.0}), "02", "dense", why=GAUGE_WHY)
+D("gate_upper", "M.mpo3", lambda x, H: ((H.arr((2, 2), "mg1"), 1), {"contract": True}), "mpo-1")
+D("partial_transpose", "M.mpo3", lambda x, H: (([0],), {}), "mpo-0")
+D("apply", "M.mpo3", lambda x, H: ((H.mps((2, 2, 2), (2, 2), "apm"),), {}), "mpo-to-mps", "dense inplace-returns-other", why="contracts site pairs and fuses multibonds")
+D("apply", "M.mpo3", lambda x, H: ((H.mpo((2, 2, 2), (2, 2), "apo"),), {"compress": True, "cutoff": 1e-12}), "mpo-to-mpo-compress", "dense inplace-returns-other", why=GAUGE_WHY)
+
+
+def _sub_mpo():
+    """MPO present on sites 0 and 2 of 4 only (for fill_empty_sites)."""
+    return H.mpo((2, 2), (2,), "sub", sites=[0, 2], L=4)
+
+
+@receiver("M.submpo")
+def _():
+    return _sub_mpo()
+
+
+D("fill_empty_sites", "M.submpo", lambda x, H: ((), {}), "full")
+D("fill_empty_sites", "M.submpo", lambda x, H: ((), {"mode": "minimal"}), "minimal")
+
+# base-class methods on structured receivers (properties must survive)
+BASE_ON = "M.mps3 M.mpo3 G.vec P.peps"
+group("B")
+D("conj", BASE_ON + " G.op P.tn2d")
+D("astype", "M.mps3 P.peps", lambda x, H: (("complex64",), {}), "c64")
+D("multiply", BASE_ON, lambda x, H: ((2.5,), {}), "2.5", "dense", why=SPREAD_WHY)
+D("multiply_each", "M.mps3 G.vec", lambda x, H: ((1.5,), {}), "1.5")
+D("equalize_norms", BASE_ON, lambda x, H: ((1.0,), {}), "one")
+D("balance_bonds", "M.mps3 G.vec P.peps", None, "", "dense", why="gauge")
+D("retag", "M.mps3 G.vec", lambda x, H: (({"I1": "Q"},), {}), "I1->Q")
+D("reindex", "M.mps3 G.vec", lambda x, H: (({"k1": "q"},), {}), "k1->q")
+D("isel", "M.mps3 G.vec", lambda x, H: (({"k1": 1},), {}), "k1")
+D("isel", "P.peps", lambda x, H: (({"k0,1": 1},), {}), "k01")
+D("squeeze", "M.mps3 P.peps")
+D("fuse_multibonds", "M.mps3 G.vec")
+D("rank_simplify", "M.mps4 G.vec", lambda x, H: ((), {"output_inds": tuple(x.outer_inds())}), "default", "value", why="simplification; value compared")
+D("pair_simplify", "M.mps4 G.vec", lambda x, H: ((), {"output_inds": tuple(x.outer_inds())}), "default", "value", why="simplification; value compared")
+D("compress_all", "M.mps4 G.vec P.peps", lambda x, H: ((), {"cutoff": 1e-10}), "default", "dense", why=GAUGE_WHY)
+D("canonize_around", "M.mps4 G.vec P.peps", lambda x, H: ((x.site_tag(x.sites[0] if hasattr(x, "sites") else 0),), {}), "site0", "dense", why=GAUGE_WHY)
+D("gauge_all_simple", "M.mps4 G.vec P.peps", lambda x, H: ((), {"max_iterations": 2}), "it2", "dense", why=GAUGE_WHY)
+D("gate_inds", "M.mps3 G.vec", lambda x, H: ((H.arr((2, 2), "gi1"), ["k0"]), {"contract": True}), "k0-contract")
+D("contract_tags", "M.mps4 G.vec", lambda x, H: ((("I0", "I1"),), {}), "I0I1")
+D("contract", "M.mps3 G.vec P.peps", lambda x, H: ((), {}), "all", inplace=None)
+D("expand_bond_dimension", "G.vec", lambda x, H: ((3,), {}), "to3")
+D("randomize", "M.mps3", lambda x, H: ((), {"seed": 1}), "seed", "noperm noorder", why="positional by definition")
+D("view_as", "M.mps3", lambda x, H: ((_qtn().TensorNetworkGenVector,), {"sites": (0, 1, 2), "site_tag_id": "I{}", "site_ind_id": "k{}"}), "mps->gen")
+D("view_like", "M.mps3", lambda x, H: ((build_receiver("G.vec"),), {}), "mps->gen")
+
+# --------------------------------------------------------------------------- #
+#                                   2D / 3D                                   #
+# --------------------------------------------------------------------------- #
+
+group("P")
+BND_WHY = "boundary / coarse-graining contraction (QR/SVD based, untruncated here): value compared"
+
+
+@receiver("P.norm")
+def _():
+    # two-layer 2D network <peps|peps> (two tensors per site)
+    return build_receiver("P.peps").make_norm()
+
+
+D("add_PEPS", "P.peps", lambda x, H: ((_refill(_qtn().PEPS.rand(2, 2, 2, seed=5, dtype="complex128"), "addp"),), {}), "same", "dense", why="direct sum")
+D("op:add", "P.peps", lambda x, H: ((_refill(_qtn().PEPS.rand(2, 2, 2, seed=5, dtype="complex128"), "addp"),), {}), "peps", "dense", inplace="op:iadd", why="direct sum")
+D("add_PEPO", "P.pepo", lambda x, H: ((_refill(_qtn().PEPO.rand(2, 2, 2, seed=5, dtype="complex128"), "addo"),), {}), "same", "dense", why="direct sum")
+D("expand_bond_dimension", "P.peps", lambda x, H: ((3,), {}), "2d-to3")
+D("expand_bond_dimension", "P.peps", lambda x, H: ((3,), {"bra": x.H}), "2d-to3-bra", "impure-ok", why="bra= is documented to be expanded in place")
+D("flatten", "P.norm", lambda x, H: ((), {}), "norm", "dense", why="fused multibonds get fresh labels")
+D("flatten", "P.peps", lambda x, H: ((), {}), "flat-already")
+D("gate", "P.peps", lambda x, H: ((H.arr((2, 2), "pg1"), ((0, 1),)), {"contract": True}), "1-contract")
+D("gate", "P.peps", lambda x, H: ((H.arr((2, 2), "pg1"), ((1, 0),)), {"contract": False}), "1-lazy")
+D("gate", "P.peps", lambda x, H: ((H.arr((4, 4), "pg2"), ((0, 0), (0, 1))), {"contract": False}), "2-lazy")
+D("gate", "P.peps", lambda x, H: ((H.arr((4, 4), "pg2"), ((0, 0), (1, 0))), {"contract": True}), "2-contract")
+D("gate", "P.peps", lambda x, H: ((H.arr((4, 4), "pg2"), ((1, 1), (0, 1))), {"contract": "split", "cutoff": 0.0}), "2-split", "dense", why=GAUGE_WHY)
+D("gate", "P.peps", lambda x, H: ((H.arr((4, 4), "pg2"), ((0, 0), (0, 1))), {"contract": "reduce-split", "cutoff": 0.0}), "2-reduce-split", "dense", why=GAUGE_WHY)
+D("normalize", "P.peps", lambda x, H: ((), {"max_bond": 16, "cutoff": 0.0}), "exact", "dense", why=BND_WHY)
+D("reindex_sites", "P.peps", lambda x, H: (("q{},{}",), {"where": [(0, 0), (1, 1)]}), "2d-q")
+D("reindex_sites", "P.peps", lambda x, H: (("q{},{}",), {}), "2d-q-all")
+D("reindex_lower_sites", "P.pepo", lambda x, H: (("q{},{}",), {"where": [(0, 1)]}), "2d-q")
+D("reindex_upper_sites", "P.pepo", lambda x, H: (("q{},{}",), {}), "2d-q-all")
+D("contract_boundary", "P.tn2d P.norm", lambda x, H: ((), {"max_bond": 64, "cutoff": 0.0}), "exact", "value collapses", why=BND_WHY)
+D("contract_boundary", "P.tn2d", lambda x, H: ((), {"max_bond": 64, "cutoff": 0.0, "mode": "full-bond", "sequence": ["xmin", "ymax"]}), "full-bond-seq", "value collapses", why=BND_WHY)
+D("contract_boundary_from", "P.tn2d", lambda x, H: (((0, 1), (0, 2), "xmin"), {"max_bond": 64, "cutoff": 0.0}), "xmin", "value", why=BND_WHY)
+D("contract_boundary_from_xmin", "P.tn2d", lambda x, H: (((0, 1),), {"max_bond": 64, "cutoff": 0.0}), "01", "value", why=BND_WHY)
+D("contract_boundary_from_xmax", "P.tn2d", lambda x, H: (((0, 1),), {"max_bond": 64, "cutoff": 0.0}), "01", "value", why=BND_WHY)
+D("contract_boundary_from_ymin", "P.tn2d", lambda x, H: (((0, 1),), {"max_bond": 64, "cutoff": 0.0}), "01", "value", why=BND_WHY)
+D("contract_boundary_from_ymax", "P.tn2d", lambda x, H: (((1, 2),), {"max_bond": 64, "cutoff": 0.0}), "12", "value", why=BND_WHY)
+D("contract_mps_sweep", "P.tn2d", lambda x, H: ((), {"max_bond": 64, "cutoff": 0.0, "direction": "xmin"}), "xmin", "value collapses", why=BND_WHY)
+D("contract_hotrg", "P.tn2d", lambda x, H: ((), {"max_bond": 64, "cutoff": 0.0}), "exact", "value collapses", why=BND_WHY)
+D("contract_ctmrg", "P.tn2d", lambda x, H: ((), {"max_bond": 64, "cutoff": 0.0}), "exact", "value collapses", why=BND_WHY)
+D("coarse_grain_hotrg", "P.tn2d", lambda x, H: (("y",), {"max_bond": 64, "cutoff": 0.0}), "y", "value", why=BND_WHY)
+D("coarse_grain_hotrg", "P.tn2d", lambda x, H: (("x",), {"max_bond": 64, "cutoff": 0.0}), "x", "value", why=BND_WHY)
+
+group("Q")
+D("reindex_sites", "Q.peps3d", lambda x, H: (("q{},{},{}",), {"where": [(0, 0, 0), (1, 1, 0)]}), "3d-q")
+D("reindex_sites", "Q.peps3d", lambda x, H: (("q{},{},{}",), {}), "3d-q-all", quick_too=True)
+D("gate", "Q.peps3d", lambda x, H: ((H.arr((2, 2), "qg1"), ((0, 1, 0),)), {"contract": True}), "1-contract")
+D("gate", "Q.peps3d", lambda x, H: ((H.arr((4, 4), "qg2"), ((0, 0, 0), (0, 1, 0))), {"contract": "reduce-split", "cutoff": 0.0}), "2-reduce-split", "dense", why=GAUGE_WHY)
+D("gate", "Q.peps3d", lambda x, H: ((H.arr((4, 4), "qg2"), ((0, 0, 0), (1, 0, 0))), {"contract": False}), "2-lazy")
+D("flatten", "Q.tn3d", lambda x, H: ((), {}), "flat-already")
+D("conj", "Q.peps3d Q.tn3d")
+D("multiply", "Q.peps3d", lambda x, H: ((2.5,), {}), "2.5", "dense", why=SPREAD_WHY)
+D("contract_boundary", "Q.tn3d", lambda x, H: ((), {"max_bond": 64, "cutoff": 0.0}), "exact", "value collapses", why=BND_WHY)
+D("contract_boundary_from", "Q.tn3d", lambda x, H: (((0, 1), (0, 1), (0, 1), "xmin"), {"max_bond": 64, "cutoff": 0.0}), "xmin", "value", why=BND_WHY, quick_too=True)
+D("contract_hotrg", "Q.tn3d", lambda x, H: ((), {"max_bond": 64, "cutoff": 0.0}), "exact", "value collapses", why=BND_WHY)
+D("contract_ctmrg", "Q.tn3d", lambda x, H: ((), {"max_bond": 64, "cutoff": 0.0}), "exact", "value collapses", why=BND_WHY)
+D("coarse_grain_hotrg", "Q.tn3d", lambda x, H: (("z",), {"max_bond": 64, "cutoff": 0.0}), "z", "value", why=BND_WHY)
+D("contract_peps_sweep", "Q.tn3d", lambda x, H: ((64,), {"cutoff": 0.0, "from_which": "xmin"}), "xmin", "value collapses", why=BND_WHY)
+D("contract_simple_sweep", "Q.tn3d", lambda x, H: ((64,), {}), "default", "value inplace-returns-other", why=BND_WHY + "; returns the number in both spellings")
+
+
+# --------------------------------------------------------------------------- #
+#      queries (no in-place twin) and in-place-only mutators run on a copy    #
+#      - "the result of ANY method depends only on labelled content"          #
+# --------------------------------------------------------------------------- #
+
+group("X")
+D("q:norm", "T.abc T.sq N.loop N.hyper M.mps3 M.mpo3 P.peps G.vec")
+D("q:to_dense", "T.abc", lambda x, H: ((("c",), ("a", "b")), {}), "c|ab")
+D("q:to_dense", "T.abc", lambda x, H: ((("b", "a", "c"),), {}), "bac")
+D("q:to_dense", "N.loop N.hyper", lambda x, H: ((("c",), ("b", "a")), {}), "c|ba")
+D("q:to_dense", "M.mps3 M.mpo3 P.peps G.vec G.op", lambda x, H: ((), {}), "default-by-site")
+D("q:split", "T.abc T.left", lambda x, H: ((("a", "b"),), {"cutoff": 0.0}), "ab|c", "dense", why=GAUGE_WHY)
+D("q:split", "T.abc", lambda x, H: ((("c",),), {"method": "qr"}), "c|ab-qr", "dense", why=GAUGE_WHY)
+D("q:split", "T.abc", lambda x, H: ((("b",),), {"method": "svd", "get": "values"}), "b-values", "value", why="spectrum")
+D("q:singular_values", "T.abc T.sq", lambda x, H: ((("a", "c"),), {}), "ac")
+D("q:entropy", "T.abc", lambda x, H: ((("b",),), {}), "b")
+D("q:compute_reduced_factor", "T.abc", lambda x, H: (("right", ("a", "b"), ("c",)), {}), "right", "value noperm", why="triangular factor: gauge dependent")
+D("q:contract", "T.abc", lambda x, H: ((H.tensor((3, 2, 4), ("b", "c", "d"), ("Z",), "qc1"), H.tensor((4, 2), ("d", "a"), ("W",), "qc2")), {}), "three-to-scalar")
+D("q:contract", "T.abc", lambda x, H: ((H.tensor((3, 4), ("b", "d"), ("Z",), "qc3"),), {"output_inds": ("d", "c", "a")}), "out-dca")
+D("q:contract", "T.abc", lambda x, H: ((), {"output_inds": ("c", "a", "b")}), "single-out-cab")
+D("q:contract", "T.abc", lambda x, H: ((), {"output_inds": ("c", "a", "b"), "preserve_tensor": True}), "single-out-cab-keep")
+D("q:distance", "T.abc", lambda x, H: ((H.tensor((2, 2, 3), ("c", "a", "b"), ("Z",), "qd"),), {}), "other")
+D("q:overlap", "T.abc", lambda x, H: ((H.tensor((2, 2, 3), ("c", "a", "b"), ("Z",), "qd"),), {}), "other")
+D("q:almost_equals", "T.abc", lambda x, H: ((build_receiver("T.abc").transpose("b", "c", "a"),), {}), "self-transposed")
+D("q:bonds", "T.abc", lambda x, H: ((H.tensor((3, 2, 4), ("b", "c", "d"), ("Z",), "qb"),), {}), "bc", "value")
+D("q:ind_size", "T.abc T.one", lambda x, H: (("b",), {}), "b")
+D("q:inds_size", "T.abc", lambda x, H: ((("c", "b"),), {}), "cb")
+D("q:idxmax", "T.sq", lambda x, H: ((), {}), "labelled-argmax")
+D("q:idxmin", "T.sq", lambda x, H: (("abs",), {}), "labelled-argmin-abs")
+D("q:largest_element", "T.abc N.loop")
+D("q:as_network", "T.abc", None, "", "alias-ok", why="documented view (virtual=True default)")
+D("p:H", "T.abc T.left N.loop N.hyper M.mps3 P.peps")
+D("mut:expand_ind", "T.abc", lambda x, H: (("b", 5), {}), "b5")
+D("mut:expand_ind", "T.abc", lambda x, H: (("a", 4), {"mode": "repeat"}), "a4-repeat")
+D("mut:new_ind", "T.abc", lambda x, H: (("n",), {"size": 2, "axis": 1}), "n2", "", why=None)
+D("mut:new_ind", "T.abc", lambda x, H: (("n",), {"size": 3, "mode": "repeat"}), "n3-repeat")
+D("mut:new_bond", "T.abc", lambda x, H: ((H.tensor((3, 4), ("b", "d"), ("Z",), "nb"),), {"size": 2, "name": "nbnd"}), "to-other", "impure-ok", why="new_bond is documented to modify both tensors in place")
+D("mut:add_tag", "T.abc N.loop", lambda x, H: (("NEW",), {}), "NEW")
+D("mut:drop_tags", "T.abc", lambda x, H: ((["X"],), {}), "X")
+D("mut:drop_tags", "N.loop", lambda x, H: ((["G"],), {}), "G")
+
+D("q:make_norm", "N.loop M.mps3 G.vec", lambda x, H: ((), {}), "default", "dense", why="bra labels are mangled")
+D("q:select", "N.loop N.tree", lambda x, H: ((["A", "C"],), {"which": "any"}), "AC-any", "alias-ok", why="documented view (virtual=True default)")
+D("q:select", "N.loop", lambda x, H: ((["A", "G"],), {"which": "all"}), "AG-all", "alias-ok", why="documented view (virtual=True default)")
+D("q:select", "N.loop", lambda x, H: ((["A"],), {"which": "!any"}), "notA", "alias-ok", why="documented view (virtual=True default)")
+D("q:select", "N.loop", lambda x, H: ((["A", "B"],), {"virtual": False}), "AB-copy")
+D("q:select_neighbors", "N.tree N.loop", lambda x, H: (("A",), {}), "A", "unordered alias-ok", why="returns the neighbouring tensors (the network's own objects, documented) as a tuple without documented order: compared as a set")
+D("q:select_local", "N.tree", lambda x, H: (("A",), {"max_distance": 1}), "A-d1", "alias-ok", why="documented view (virtual=True default)")
+D("q:trace", "N.op", lambda x, H: ((["k0", "k1"], ["b0", "b1"]), {}), "full")
+D("q:overlap", "N.loop", lambda x, H: ((build_receiver("N.loop").multiply_each(0.9),), {}), "self-scaled")
+D("q:distance", "N.loop", lambda x, H: ((build_receiver("N.loop").multiply_each(0.9),), {}), "self-scaled")
+D("q:outer_size", "N.loop N.hyper")
+D("q:ind_sizes", "N.loop N.hyper")
+D("q:get_multibonds", "N.multi N.loop", lambda x, H: ((), {}), "default", "value noorder", why="maps labels to tids (positional)")
+D("q:get_hyperinds", "N.hyper N.loop", lambda x, H: ((), {}), "default", "value")
+D("q:max_bond", "N.loop N.multi M.mps4 P.peps")
+D("q:geometry_hash", "N.loop N.hyper N.multi", lambda x, H: ((), {"strict_index_order": False}), "loose", "noorder", why="hash is documented to depend on tensor order (but NOT on the order of labels on a tensor)")
+D("q:istree", "N.loop N.tree N.multi")
+D("q:isconnected", "N.loop N.hyper")
+D("q:split", "N.loop", lambda x, H: ((("a", "b"),), {"cutoff": 0.0}), "tn-ab|c", "dense", why=GAUGE_WHY)
+D("q:compute_reduced_factor", "N.loop", lambda x, H: (("left", ("a",), ("b", "c")), {}), "tn-left", "value noperm noorder", why="triangular factor: gauge dependent")
+D("mut:canonize_between", "N.loop N.tree", lambda x, H: (("A", "B"), {}), "AB", "dense", why=GAUGE_WHY)
+D("mut:compress_between", "N.loop N.multi", lambda x, H: (("A", "B"), {"cutoff": 0.0}), "AB", "dense", why=GAUGE_WHY)
+D("mut:compress_between", "N.loop", lambda x, H: (("A", "B"), {"max_bond": 1, "cutoff": 0.0}), "AB-chi1", "dense", why=GAUGE_WHY)
+D("mut:contract_between", "N.loop N.multi N.hyper", lambda x, H: (("A", "B"), {}), "AB")
+D("mut:contract_ind", "N.loop N.multi", lambda x, H: (("x",), {}), "x")
+D("mut:contract_ind", "N.hyper", lambda x, H: (("h",), {"output_inds": ("a", "b", "c")}), "hyper-h")
+D("mut:cut_bond", "N.loop", lambda x, H: (("x",), {"new_left_ind": "xl", "new_right_ind": "xr"}), "x", "noorder", why="which tensor is 'left' is defined by tensor order only")
+D("mut:cut_between", "N.loop", lambda x, H: (("A", "B", "xl", "xr"), {}), "AB")
+D("mut:insert_gauge", "N.loop", lambda x, H: ((H.arr((2, 2), "ig") + 2 * np.eye(2), "A", "B"), {}), "AB")
+D("mut:split_tensor", "N.loop", lambda x, H: (("B", ("x", "b")), {"cutoff": 0.0}), "B-xb|y", "dense", why=GAUGE_WHY)
+D("mut:distribute_exponent", "N.loop N.tree")
+D("mut:mangle_inner_", "N.loop", lambda x, H: ((), {"append": "*"}), "star")
+D("mut:add_tensor", "N.loop", lambda x, H: ((H.tensor((2, 3), ("c", "d"), ("Z",), "at"),), {}), "tensor")
+D("mut:delete", "N.loop", lambda x, H: ((["A"],), {}), "A")
+D("mut:convert_to_zero", "N.loop")
+D("mut:gauge_simple_insert", "N.loop", lambda x, H: ((_gauges_for(x),), {}), "all-bonds", "impure-ok noorder", why="returns the (outer, inner) lists of absorbed gauges in network order; gauges dict is in/out")
+
+D("q:expec", "M.mps3", lambda x, H: ((H.mps((2, 3, 2), (2, 2), "ex"),), {}), "other")
+D("q:overlap", "M.mps3", lambda x, H: ((H.mps((2, 3, 2), (2, 2), "ex"),), {}), "mps-other")
+CANON_WHY = "moves the orthogonality centre of its receiver in place (by design, tracked through info=); the purity clause is about (f, f_) pairs"
+D("q:entropy", "M.mps4", lambda x, H: ((2,), {}), "cut2", "impure-ok", why=CANON_WHY)
+D("q:schmidt_values", "M.mps4 M.mps3", lambda x, H: ((1,), {}), "cut1", "impure-ok", why=CANON_WHY)
+D("q:bond_sizes", "M.mps4 M.mpo3")
+D("q:magnetization", "M.mps4", lambda x, H: ((1,), {}), "site1", "impure-ok", why=CANON_WHY)
+D("q:partial_trace_to_mpo", "M.mps4", lambda x, H: (([1, 2],), {}), "12", "dense", why=GAUGE_WHY)
+D("q:local_expectation_canonical", "M.mps4", lambda x, H: ((H.arr((4, 4), "lec"), (1, 2)), {}), "12", "value impure-ok", why=CANON_WHY)
+D("q:correlation", "M.mps4", lambda x, H: ((H.arr((2, 2), "corr"), 0, 2), {}), "02", "value")
+D("q:trace", "M.mpo3", lambda x, H: ((), {}), "mpo")
+D("q:sample_configuration", "M.mps3", lambda x, H: ((), {"seed": 11}), "seeded", "value", why="returns (configuration, probability)")
+D("q:local_expectation_exact", "P.peps G.vec", lambda x, H: ((H.arr((2, 2), "gle1"), (x.sites[1],)), {}), "site1", "value")
+D("q:partial_trace_exact", "G.vec", lambda x, H: (((0, 1),), {}), "01", "value")
+
+# --------------------------------------------------------------------------- #
+#     universal entries: base-class methods on EVERY network receiver, with   #
+#     labels / tags picked from the receiver by name order (storage-free)     #
+# --------------------------------------------------------------------------- #
+
+group("U")
+ALLNETS = "N.loop N.multi N.hyper N.struct N.tree N.left N.braket N.op G.vec G.op M.mps3 M.mps4 M.mpo3 M.submpo P.peps P.pepo P.tn2d P.norm Q.peps3d Q.tn3d"
+UQUICK = {"M.mps4", "P.peps", "G.op", "N.braket"}  # receivers that run these in the quick tier too
+
+
+def _o(x, i=0):
+    """i-th outer label in name order (independent of storage)"""
+    return sorted(x.outer_inds(), key=str)[i]
+
+
+def _tg(x, i=0):
+    """i-th tag in name order that does not cover every tensor"""
+    tags = [t for t in sorted(x.tags, key=str) if len(x.tag_map[t]) < x.num_tensors]
+    return tags[i]
+
+
+def _has_outer(names):
+    return " ".join(n for n in names.split() if n not in ("P.tn2d", "Q.tn3d", "P.norm"))
+
+
+def U(name, recvs, args=None, label="", flags="", **kw):
+    """universal entry: thorough for all receivers, quick for UQUICK"""
+    recvs = recvs.split()
+    q = [r for r in recvs if r in UQUICK]
+    t = [r for r in recvs if r not in UQUICK]
+    if q:
+        D(name, q, args, label + "@q", flags, **kw)
+    if t:
+        D(name, t, args, label, flags, thorough_only=True, **kw)
+
+
+WITH_OUTER = _has_outer(ALLNETS)
+U("conj", ALLNETS, None, "u")
+U("astype", ALLNETS, lambda x, H: (("complex64",), {}), "u-c64")
+U("multiply", ALLNETS, lambda x, H: ((-1.5,), {}), "u-neg1.5", "dense", why=SPREAD_WHY)
+U("multiply_each", ALLNETS, lambda x, H: ((0.5,), {}), "u-0.5")
+U("negate", ALLNETS, None, "u", "dense", why=SPREAD_WHY)
+U("equalize_norms", ALLNETS, lambda x, H: ((1.0,), {}), "u-one")
+U("equalize_norms", ALLNETS, None, "u-none")
+U("retag", ALLNETS, lambda x, H: (({_tg(x): "QQ"},), {}), "u-first->QQ")
+U("reindex", WITH_OUTER, lambda x, H: (({_o(x): "qq"},), {}), "u-first->qq")
+U("isel", WITH_OUTER, lambda x, H: (({_o(x): 1},), {}), "u-first=1")
+U("isel", WITH_OUTER, lambda x, H: (({_o(x): 0, _o(x, -1): 1},), {}), "u-first=0,last=1")
+U("sum_reduce", WITH_OUTER, lambda x, H: ((_o(x),), {}), "u-first")
+U("vector_reduce", WITH_OUTER, lambda x, H: ((_o(x, -1), H.arr((x.ind_size(_o(x, -1)),), "uvr")), {}), "u-last")
+U("flip", WITH_OUTER.replace("M.mps3", "").replace("M.mps4", ""), lambda x, H: (([_o(x)],), {}), "u-first")  # (MatrixProductState.flip is a different method: site reversal)
+U("squeeze", ALLNETS, None, "u")
+U("fuse_multibonds", ALLNETS, None, "u")
+U("randomize", ALLNETS, lambda x, H: ((), {"seed": 2}), "u-seed", "noperm noorder", why="positional by definition")
+U("to", ALLNETS, lambda x, H: ((), {"dtype": "complex64"}), "u-dtype")
+U("rank_simplify", ALLNETS, lambda x, H: ((), {"output_inds": tuple(x.outer_inds())}), "u", "value", why="simplification; value compared")
+U("full_simplify", ALLNETS, lambda x, H: ((), {"output_inds": tuple(x.outer_inds())}), "u", "value", why="simplification; value compared")
+U("compress_all", ALLNETS.replace("N.hyper", ""), lambda x, H: ((), {"cutoff": 1e-12}), "u", "dense", why=GAUGE_WHY)
+U("gauge_all_simple", ALLNETS.replace("N.hyper", ""), lambda x, H: ((), {"max_iterations": 2}), "u", "dense", why=GAUGE_WHY)
+U("gauge_all_canonize", ALLNETS.replace("N.hyper", ""), lambda x, H: ((), {"max_iterations": 1}), "u", "dense", why=GAUGE_WHY)
+U("canonize_around", ALLNETS.replace("N.hyper", ""), lambda x, H: ((_tg(x),), {}), "u-first-tag", "dense", why=GAUGE_WHY)
+U("gate_inds", WITH_OUTER, lambda x, H: ((H.arr((x.ind_size(_o(x)),) * 2, "ugi"), [_o(x)]), {"contract": True}), "u-first-contract")
+U("gate_inds", WITH_OUTER, lambda x, H: ((H.arr((x.ind_size(_o(x)),) * 2, "ugi"), [_o(x)]), {"contract": False}), "u-first-lazy")
+U("contract_tags", ALLNETS, lambda x, H: (([_tg(x, 0), _tg(x, 1)],), {}), "u-first-two-tags", "collapses", why="two-tensor receivers contract to one tensor: the in-place spelling keeps a one-tensor network (documented)")
+U("partition", ALLNETS, lambda x, H: (([_tg(x)],), {}), "u-first-tag", "inplace-returns-other")
+U("expand_bond_dimension", "N.loop N.multi N.struct N.tree N.left N.braket N.op G.vec G.op P.tn2d P.norm Q.tn3d", lambda x, H: ((4,), {}), "u-to4")
+U("q:norm", ALLNETS, None, "u")
+U("p:H", ALLNETS, None, "u")
+U("q:make_norm", _has_outer("N.loop N.tree G.vec M.mps4 M.mpo3 P.peps Q.peps3d"), None, "u", "dense", why="bra labels are mangled")
+U("q:select", ALLNETS, lambda x, H: (([_tg(x)],), {"virtual": False}), "u-first-tag-copy")
+U("mut:add_tag", ALLNETS, lambda x, H: (("NEWTAG",), {}), "u")
+U("mut:drop_tags", ALLNETS, lambda x, H: (([_tg(x)],), {}), "u-first-tag")
+U("mut:distribute_exponent", ALLNETS, None, "u")
+U("q:contract", "N.loop N.multi N.struct N.tree N.left N.braket N.op G.vec G.op M.mps3 M.mps4 M.mpo3 M.submpo P.peps P.tn2d P.norm Q.peps3d Q.tn3d", lambda x, H: ((), {"output_inds": tuple(sorted(x.outer_inds(), key=str))}), "u-all-sorted-out")
